@@ -267,10 +267,17 @@ retry:
 	preparedConn, err := finishHandshake(conn, sesh.GetSessionKey(), sta.WorldState.Rand)
 	if err != nil {
 		log.Error(err)
-		return
+		if existing {
+			return
+		}
+		// this connection is lost, but it has made the session: the session is registered with the user and
+		// other connections of the client may already have joined it, or will. It still has to be served,
+		// by us: nobody else runs serveSession for it. If no connection ever joins, its inactivity timeout
+		// closes it and serveSession takes it off the user's record
+	} else {
+		log.Trace("finished handshake")
+		sesh.AddConnection(preparedConn)
 	}
-	log.Trace("finished handshake")
-	sesh.AddConnection(preparedConn)
 
 	if !existing {
 		// if the session was newly made, we serve connections from the session streams to the proxy server
